@@ -11,7 +11,8 @@
 (*        lanes, a byte carries one of two values                          *)
 (*  mo  = <<ack, err, lane_0 .. lane_(L-1)>>                               *)
 (* A request is held unchanged until it is terminated by ack and/or err.   *)
-(* c: lanes, words, init, walpha (write <<sel, data>> pairs), rsels (sel   *)
+(* c: lanes, words, init, wwords / rwords (words written / read), walpha (write  *)
+(*    <<sel, data>> pairs), rsels (sel                                      *)
 (*    values of reads), readonly, badlo (see FlatMemAxiLite)               *)
 (***************************************************************************)
 EXTENDS Integers, Sequences, FiniteSets, TLC
@@ -30,8 +31,8 @@ MInit(c) ==
 MInputs(c) ==
   IF ms.open # <<>> THEN { ms.open }
   ELSE { <<0, 0, 0, 0, 0>> } \cup
-       (IF c.dirs = "w" THEN {} ELSE { <<1, a, 0, c.rsels[i], 0>> : a \in 0..(c.words - 1), i \in 1..Len(c.rsels) }) \cup
-       (IF c.dirs = "r" THEN {} ELSE { <<1, a, 1, c.walpha[i][1], c.walpha[i][2]>> : a \in 0..(c.words - 1), i \in 1..Len(c.walpha) })
+       (IF c.dirs = "w" THEN {} ELSE { <<1, c.rwords[j], 0, c.rsels[i], 0>> : j \in 1..Len(c.rwords), i \in 1..Len(c.rsels) }) \cup
+       (IF c.dirs = "r" THEN {} ELSE { <<1, c.wwords[j], 1, c.walpha[i][1], c.walpha[i][2]>> : j \in 1..Len(c.wwords), i \in 1..Len(c.walpha) })
 
 BadWord(c, a) == c.badlo > 0 /\ a * c.lanes + 1 >= c.badlo
 
